@@ -601,6 +601,12 @@ func (e *Env) binary(x SBinary) Term {
 				s = b
 			}
 			r = mk(fmt.Sprintf("(is_PNull (sl_arr %s))", s.S), SBool, nil)
+		} else if a.Sort == SPtr && (a.S == "PNull" || b.S == "PNull") {
+			o := a
+			if a.S == "PNull" {
+				o = b
+			}
+			r = mk(fmt.Sprintf("(is_PNull %s)", o.S), SBool, nil)
 		} else if a.Sort == SSlice && (isStringT(a.T) || isStringT(b.T)) {
 			// strings are compared by content, like the == of the code
 			fc := e.fc
@@ -833,6 +839,15 @@ func (e *Env) call(c SCall) Term {
 				q, strings.Join(cond, " "), cur.S, q, old.S, q, cur.S, q), SBool, nil))
 		}
 		return tAnd(cs...)
+	case "has":
+		// has(m, k): key k is present in map m
+		a := args()
+		mt, ok := typeOrNil(a[0].T).(*types.Map)
+		if !ok {
+			e.fail("has(map, key)")
+		}
+		dom, _, _, _ := fc.compMap(mt)
+		return mk(fmt.Sprintf("(select (select %s %s) %s)", fc.comp(e.st, dom).S, a[0].S, a[1].S), SBool, nil)
 	case "closed":
 		a := args()[0]
 		return tSel(fc.comp(e.st, fc.compChanClosed()), a, SBool, nil)
